@@ -412,6 +412,10 @@ def main(argv):
     if notes:
         ev["coverage"]["notes"] = notes
     write_evidence(pid, ev)
+    if REPO != "/repo":
+        # a development run against a scratch worktree regenerated the fact files from THAT tree:
+        # put the committed (clean-tree) versions back so that they are never committed by accident
+        sh("git checkout -- coq/theories/Gen harness/gen_c03_registry.go harness/gen_c20_levels.go", cwd=ROOT, timeout=60)
 
     for sig, rs in kf_hit.items():
         k = match_known(sig)
